@@ -646,8 +646,16 @@ fn c07(r: &Run) -> Vec<String> {
     use TokenType::*;
     let mut v = Vec::new();
     let mut next_start = 0u32;
+    // paren stack: true = hidden paren of a %str/%nrstr call; a MacroString directly inside is %-quoted text
+    let mut parens: Vec<bool> = Vec::new();
     for t in &r.toks {
         let text = r.text(t);
+        if t.tt == LPAREN {
+            parens.push(t.ch == TokenChannel::HIDDEN);
+        } else if t.tt == RPAREN {
+            parens.pop();
+        }
+        let in_str_call = parens.last() == Some(&true);
         if let Payload::StringLiteral(a, b) = t.payload {
             if a != next_start || b < a || b as usize > r.lit.len() {
                 v.push(format!("token {} payload range {}..{} does not continue the literal buffer at {}", t.idx, a, b, next_start));
@@ -670,7 +678,7 @@ fn c07(r: &Run) -> Vec<String> {
             }
             StringExprText => Some((text.to_string(), unquote(text, '"'))),
             StringExprEnd if text.is_empty() => None,
-            MacroString if has_payload => Some((text.to_string(), unquote_str_call(text))),
+            MacroString if has_payload || in_str_call => Some((text.to_string(), unquote_str_call(text))),
             _ => None,
         };
         if let Some((content, unq)) = expect {
